@@ -22,7 +22,7 @@ Chunks ==
     [] Universe = "block"  -> {"W", "SP", "NL", "EQ2", "EQ3", "*", "#", ";", ":", "HR", "Q2"}
     [] Universe = "html"   -> {"W", "NL", "*", "SPAN", "SPANA", "ESPAN", "DIV", "EDIV", "BR", "EBR", "REF", "EREF",
                                "UL", "EUL", "LI", "ELI", "UNK", "EUNK", "SPANS"}
-    [] Universe = "inline" -> {"W", "SP", "NL", "Q2", "Q3", "Q5", "ML", "MT", "ME", "MA", "MN", "MW", "URL", ":"}
+    [] Universe = "inline" -> {"W", "SP", "NL", "Q2", "Q3", "Q5", "ML", "MT", "ME", "MA", "MN", "MNE", "MW", "URL", ":"}
     \* thorough tier: one chunk longer over slightly smaller alphabets
     [] Universe = "coreT"  -> {"W", "SP", "NL", "EQ2", "Q2", "Q3", "*", ";", ":", "HR", "TS", "TE", "TR", "VB", "DVB", "EX",
                                "SPAN", "ESPAN", "PRE", "MT"}
@@ -30,7 +30,7 @@ Chunks ==
     [] Universe = "blockT" -> {"W", "SP", "NL", "EQ2", "EQ3", "*", "#", ";", ":", "HR"}
     [] Universe = "htmlT"  -> {"W", "NL", "*", "SPAN", "SPANA", "ESPAN", "DIV", "EDIV", "BR", "REF", "EREF",
                                "UL", "EUL", "LI", "ELI", "EUNK"}
-    [] Universe = "pre"    -> {"W", "SP", "NL", "PRE", "EPRE", "EQ2", "*", "HR", "Q2", "TS", "VB", "SPAN", "ESPAN", "MT", "MN"}
+    [] Universe = "pre"    -> {"W", "SP", "NL", "PRE", "EPRE", "EQ2", "*", "HR", "Q2", "TS", "VB", "SPAN", "ESPAN", "MT", "MN", "MNE"}
 
 (* machine tree -> WikiTree representation *)
 StrRec(n, chars) == [n |-> n, hi |-> <<>>, c |-> chars]
